@@ -110,7 +110,16 @@ def run(R, job):
                 if dict(root["a"]).get(k.rstrip("_")) != v:
                     problems.append(f"html attribute {k} missing")
         # dependencies: resolved list == independent resolution of the document-order collection
-        all_deps = core.TagList(*content).tagify().get_dependencies(dedup=False)
+        def walk_deps(x, acc):
+            "document order, every nesting level (independent of get_dependencies)"
+            if isinstance(x, core.HTMLDependency):
+                acc.append(x)
+            elif isinstance(x, core.Tag):
+                for k in x.children: walk_deps(k, acc)
+            elif isinstance(x, (core.TagList, list, tuple)):
+                for k in x: walk_deps(k, acc)
+            return acc
+        all_deps = walk_deps(core.TagList(*content).tagify(), [])
         order, best = [], {}
         from packaging.version import Version
         for d in all_deps:
